@@ -17,7 +17,9 @@
  * checked relative to their entry); unlock-not-held / relock of a
  * non-recursive lock / free of a held lock are reported at once.
  */
+#ifndef _GNU_SOURCE
 #define _GNU_SOURCE
+#endif
 #include "mcx.h"
 #include "locks.h"
 #include "sysfault.h"
@@ -43,6 +45,10 @@
 #include <fcntl.h>
 #include <signal.h>
 #include <dirent.h>
+#include <setjmp.h>
+#include <ucontext.h>
+#include <sys/syscall.h>
+#include <time.h>
 #include <sys/socket.h>
 #include <sys/mman.h>
 #include <sys/stat.h>
@@ -93,6 +99,8 @@ static void lf_leave(const char *name, const char *fmt, long v)
 #define CI(name, ...) ({ lf_enter(#name); long r_ = (long)name(__VA_ARGS__); lf_leave(#name, "%s=%ld ", r_); r_; })
 /* pointer result */
 #define CP(name, ...) ({ lf_enter(#name); __typeof__(name(__VA_ARGS__)) r_ = name(__VA_ARGS__); lf_leave(#name, r_ ? "%s=ok " : "%s=NULL ", 0); r_; })
+/* the explicit lock APIs are outside the property; they are exercised as a balanced pair in one bracket */
+#define CPAIR(label, lock_stmt, unlock_stmt) do { lf_enter(label); lock_stmt; unlock_stmt; lf_leave(label, NULL, 0); } while (0)
 /* void */
 #define CV(name, ...) do { lf_enter(#name); name(__VA_ARGS__); lf_leave(#name, NULL, 0); } while (0)
 
@@ -125,9 +133,66 @@ static char path_hosts[64], path_resolv[64];
 static unsigned char fd_baseline[4096];
 
 static void idle(void) { if (B) event_base_loopbreak(B); }
-static void logcb(int sev, const char *m) { (void)sev; (void)m; }
+static char last_err[300];
 static void dnslogcb(int w, const char *m) { (void)w; (void)m; }
-
+static void logcb(int sev, const char *m)
+{
+	/* warnings are expected by the hundred (injected faults); errors precede abort()/exit() and name the assertion */
+	if (sev == EVENT_LOG_ERR) {
+		snprintf(last_err, sizeof last_err, "%s", m);
+		if (mc_replaying()) { fprintf(stderr, "[libevent err] %s\n", m); fflush(stderr); }
+	}
+}
+/* Ways an execution can end early, all funnelled through one sigjmp_buf in run_scenario:
+ *  1 libevent's deliberate fatal exit (event_err(1, "calloc") in event_base_priority_init, evmap, ...):
+ *    the process is gone by design, no lock question remains -> plain end of execution;
+ *  2 a failed EVUTIL_ASSERT (event_errx(EVENT_ERR_ABORT_)) -> mc_fail crash:assert:<func>:<cond>;
+ *  3 SIGSEGV inside libevent (typically a NULL dereference after an injected ENOMEM)
+ *    -> mc_fail crash:SIGSEGV:<function containing the faulting pc>.
+ * 2 and 3 are robustness defects outside C08; they are reported under their own keys and the
+ * exploration goes on (a dying worker would cost a re-init and the explorer stops after 40 deaths).
+ * Errors found by AddressSanitizer itself (use-after-free, overflow) still kill the worker. */
+static sigjmp_buf end_jmp; static volatile int end_armed; static int fatal_code;
+#define EVENT_ERR_ABORT_CODE ((int)0xdeaddead)
+static void fatalcb(int err)
+{
+	if (!end_armed) return;
+	if (err == EVENT_ERR_ABORT_CODE) {
+		/* "file:line: Assertion COND failed in FUNC" */
+		char key[200], cond[120] = "?", func[80] = "?";
+		const char *a = strstr(last_err, "Assertion "), *f = strstr(last_err, " failed in ");
+		if (a && f && f > a) {
+			size_t n = (size_t)(f - (a + 10)); if (n >= sizeof cond) n = sizeof cond - 1;
+			memcpy(cond, a + 10, n); cond[n] = 0;
+			snprintf(func, sizeof func, "%s", f + 11);
+			for (char *c = cond, *o = cond; ; c++) { if (*c != ' ') *o++ = *c; if (!*c) break; }
+		}
+		snprintf(key, sizeof key, "crash:assert:%s:%s", func, cond);
+		mc_fail(key, "%s (during %s)", last_err, locks_current_api());
+		siglongjmp(end_jmp, 2);
+	}
+	fatal_code = err;
+	siglongjmp(end_jmp, 1);
+}
+extern void __sanitizer_symbolize_pc(void *pc, const char *fmt, char *out_buf, size_t out_buf_size);
+int __real_sigaction(int, const struct sigaction *, struct sigaction *);
+static struct sigaction old_segv;
+static void segv_handler(int sig, siginfo_t *si, void *ucv)
+{
+	ucontext_t *uc = ucv;
+	if (!end_armed) {
+		/* not ours: hand over to the previous handler (AddressSanitizer's report) */
+		if (old_segv.sa_flags & SA_SIGINFO) old_segv.sa_sigaction(sig, si, ucv);
+		else { signal(SIGSEGV, SIG_DFL); }
+		return;
+	}
+	char fn[128] = "?", key[200];
+	void *pc = (void *)uc->uc_mcontext.gregs[REG_RIP];
+	__sanitizer_symbolize_pc(pc, "%f", fn, sizeof fn);
+	snprintf(key, sizeof key, "crash:SIGSEGV:%s", fn);
+	mc_fail(key, "SIGSEGV at address %p in %s during %s", si->si_addr, fn, locks_current_api());
+	siglongjmp(end_jmp, 3);
+}
 static int mk_memfd(const char *name, const char *content, size_t n)
 {
 	int fd = memfd_create(name, 0);
@@ -248,7 +313,15 @@ static void run_scenario(int s)
 	sf_reset();
 	vclock_reset(); vclock_idle_hook = idle;
 	B = NULL; armed_once = 0;
-	scen[s].fn(scen[s].arg);
+	fatal_code = 0;
+	int how = sigsetjmp(end_jmp, 1);
+	if (how == 0) { end_armed = 1; scen[s].fn(scen[s].arg); }
+	end_armed = 0;
+	if (how && !quiet) {
+		if (how == 1) { mc_observe("*libevent-fatal-exit(%d)* ", fatal_code); MC_COUNT("runs_ended_by_libevent_fatal_exit"); }
+		else { mc_observe("*crash(%s)* ", how == 2 ? "assert" : "SIGSEGV"); MC_COUNT("runs_ended_by_crash_inside_libevent"); }
+	}
+	if (how && quiet) { fprintf(stderr, "c08: scenario %s ends abnormally (%d) without any fault: %s\n", scen[s].name, how, last_err); abort(); }
 	B = NULL;
 	/* hygiene: anything a failed path leaked must not influence the next execution */
 	close_leaked_fds();
@@ -310,6 +383,7 @@ static void body(void)
 	n_plan = 0;
 }
 
+static double real_now(void) { struct timespec ts; syscall(SYS_clock_gettime, CLOCK_MONOTONIC, &ts); return ts.tv_sec + ts.tv_nsec * 1e-9; }
 static void init(void)
 {
 	static const char hosts[] = "127.0.0.1 hosta.test\n::1 hosta.test\n10.9.8.7 hostb.test\n::2 hostc.test\n";
@@ -317,6 +391,8 @@ static void init(void)
 	static char data[8192];
 	sf_alloc_install();
 	event_set_log_callback(logcb);
+	event_set_fatal_callback(fatalcb);
+	{ struct sigaction sa; memset(&sa, 0, sizeof sa); sa.sa_sigaction = segv_handler; sa.sa_flags = SA_SIGINFO | SA_NODEFER; sigemptyset(&sa.sa_mask); __real_sigaction(SIGSEGV, &sa, &old_segv); }
 	signal(SIGPIPE, SIG_IGN);
 	evdns_set_log_fn(dnslogcb);
 	locks_install("C08", mc_param("lockdebug", 0));
@@ -334,7 +410,7 @@ static void init(void)
 	 * must be identical in run 3 */
 	quiet = 1; locks_set_quiet(1); n_plan = 0;
 	for (int s = 0; s < NSCEN; s++) {
-		struct scount a, b;
+		struct scount a, b; double t_start = real_now();
 		for (int r = 0; r < 3; r++) {
 			struct scount *t = r == 1 ? &a : &b;
 			run_scenario(s);
@@ -347,7 +423,7 @@ static void init(void)
 		for (int i = 0; i < SF_N; i++) K += (int)(a.sys[i] + 1) * 4;
 		sc[s].K = K;
 		if (mc_param("list", 0)) {
-			fprintf(stderr, "scenario %3d %-28s allocs=%ld K=%d%s\n", s, scen[s].name, a.allocs, K, sc[s].unstable ? " UNSTABLE" : "");
+			fprintf(stderr, "scenario %3d %-28s allocs=%ld K=%d %.2f ms/run%s\n", s, scen[s].name, a.allocs, K, (real_now() - t_start) * 1000 / 3, sc[s].unstable ? " UNSTABLE" : "");
 		}
 	}
 	quiet = 0; locks_set_quiet(0);
